@@ -6,8 +6,11 @@
    F v f                  the filter spec (structural recursion, stop flag threaded in pre-order)
    kept v f n             the set characterisation of the statement (independent of F's recursion)
    filter_inplace v f     mirror of Node.filter._visit (repaired: D05, D25) on the child list f
-   filtered v f           mirror of Node._add_filtered with its parent stack (Tree.filtered / copy(predicate=))
-   dbl v g                g plus the D24 leaves (known finding, pinned by tests/test_core.py::TestCopy::test_filtered) *)
+   filtered v mk f        mirror of Node._add_filtered with its parent stack (Tree.filtered / copy(predicate=))
+   dbl v mk g             g plus the D24 leaves (known finding, pinned by tests/test_core.py::TestCopy::test_filtered)
+   mk : info -> info      how the copying scan re-creates a node (add_child(n) without a kind argument): the identity
+                          in a plain Tree, "kind := DEFAULT_CHILD_TYPE" in a TypedTree (CaseC08.remake); the scans
+                          themselves never look at kinds, so every theorem holds for every mk *)
 From Coq Require Import List ZArith Bool Arith.
 From NT Require Import Sx Rose Filter FilterProofs FilterUnique FilterSource CaseC08.  (* CaseC08: so that the correspondence entry point is rebuilt with the theorems *)
 From NTGen Require Import Generated.
@@ -117,37 +120,37 @@ Print Assumptions C08_branch_inplace_wellformed.
 (* ---- the copying form (Tree.filtered, Tree.copy(predicate=), Node.…) ---- *)
 (* proved: F plus exactly the D24 leaves, modulo node identity; for every
    first allocation index (tree start: 1, branch start: 2, add_self=False: 1) *)
-Theorem C08_copy_is_dbl_F : forall v f nx, same_modulo_ids (fst (add_filtered v f nx)) (dbl v (F v f)).
+Theorem C08_copy_is_dbl_F : forall v mk f nx, same_modulo_ids (fst (add_filtered v mk f nx)) (dbl v mk (F v f)).
 Proof. exact add_filtered_is_dbl_F. Qed.
 Print Assumptions C08_copy_is_dbl_F.
 
 (* the nodes of the copy are new nodes with consecutive allocation indices in
    pre-order: every node of the copy exists exactly once *)
-Theorem C08_copy_nodes_fresh : forall v f nx,
-  ids (fst (add_filtered v f nx)) = seq nx (length (ids (fst (add_filtered v f nx)))) /\
-  snd (add_filtered v f nx) = nx + length (ids (fst (add_filtered v f nx))).
+Theorem C08_copy_nodes_fresh : forall v mk f nx,
+  ids (fst (add_filtered v mk f nx)) = seq nx (length (ids (fst (add_filtered v mk f nx)))) /\
+  snd (add_filtered v mk f nx) = nx + length (ids (fst (add_filtered v mk f nx))).
 Proof. exact add_filtered_ids. Qed.
 Print Assumptions C08_copy_nodes_fresh.
 
-Theorem C08_copy_once_each : forall v f,
-  NoDup (ids (filtered v f)) /\ ids (filtered v f) = seq 1 (length (ids (filtered v f))).
+Theorem C08_copy_once_each : forall v mk f,
+  NoDup (ids (filtered v mk f)) /\ ids (filtered v mk f) = seq 1 (length (ids (filtered v mk f))).
 Proof. exact filtered_fresh. Qed.
 Print Assumptions C08_copy_once_each.
 
 (* Node.filtered / Node.copy(predicate=) of a branch: the start node on top *)
-Theorem C08_branch_copy : forall v t,
-  same_modulo_ids [T 1 (rinfo t) (fst (add_filtered v (rch t) 2))] [T (rid t) (rinfo t) (dbl v (F v (rch t)))].
+Theorem C08_branch_copy : forall v mk t,
+  same_modulo_ids [T 1 (mk (rinfo t)) (fst (add_filtered v mk (rch t) 2))] [T (rid t) (mk (rinfo t)) (dbl v mk (F v (rch t)))].
 Proof. exact branch_copy. Qed.
 Print Assumptions C08_branch_copy.
 
-Theorem C08_inplace_eq_copy_modulo_dbl : forall v f, NoDup (ids f) ->
-  same_modulo_ids (filtered v f) (dbl v (filter_inplace v f)).
+Theorem C08_inplace_eq_copy_modulo_dbl : forall v mk f, NoDup (ids f) ->
+  same_modulo_ids (filtered v mk f) (dbl v mk (filter_inplace v f)).
 Proof. exact inplace_vs_copy. Qed.
 Print Assumptions C08_inplace_eq_copy_modulo_dbl.
 
 (* outside the region of D24 the copying form is F *)
 Theorem C08_copy_is_F_outside_D24 : forall v f,
-  (forall n, In n (ids f) -> v n <> VTrue /\ v n <> VSkipKeepSelf) -> same_modulo_ids (filtered v f) (F v f).
+  (forall n, In n (ids f) -> v n <> VTrue /\ v n <> VSkipKeepSelf) -> same_modulo_ids (filtered v (fun i => i) f) (F v f).
 Proof. exact filtered_is_F_outside_D24. Qed.
 Print Assumptions C08_copy_is_F_outside_D24.
 
@@ -156,7 +159,7 @@ Print Assumptions C08_copy_is_F_outside_D24.
    tests/test_core.py::TestCopy::test_filtered, `"2" in node.name.lower()` on
    A(a1(a11,a12),a2) B(b1(b11)) *)
 Definition C08_copy_full_statement : Prop :=
-  forall v f, same_modulo_ids (filtered v f) (F v f).
+  forall v f, same_modulo_ids (filtered v (fun i => i) f) (F v f).
 
 Definition nd (id : nat) (ch : list rt) : rt := T id (I (Z.of_nat id) (Z.of_nat id) 0 true [] (DInt (Z.of_nat id)) None []) ch.
 (*                 A      a1     a11      a12      a2       B      b1     b11 *)
@@ -170,34 +173,34 @@ Qed.
 Print Assumptions C08_copy_refuted.
 
 (* ---- the public entry points (optional predicate) -------------------- *)
-Theorem C08_api_without_predicate : forall f nx,
-  api_filter None f = EValue /\ api_filtered None f nx = EValue /\
-  api_copy None f nx = copy_result (fst (copy_f f nx)) /\
+Theorem C08_api_without_predicate : forall mk f nx,
+  api_filter None f = EValue /\ api_filtered mk None f nx = EValue /\
+  api_copy mk None f nx = copy_result (fst (copy_f f nx)) /\
   same_modulo_ids (fst (copy_f f nx)) f /\
   ids (fst (copy_f f nx)) = seq nx (length (ids f)).
 Proof. exact api_without_predicate. Qed.
 Print Assumptions C08_api_without_predicate.
 
-Theorem C08_api_with_predicate : forall v f nx, NoDup (ids f) ->
+Theorem C08_api_with_predicate : forall v mk f nx, NoDup (ids f) ->
   api_filter (Some v) f = Ok (F v f) /\
-  api_filtered (Some v) f nx = copy_result (fst (add_filtered v f nx)) /\
-  api_copy (Some v) f nx = copy_result (fst (add_filtered v f nx)) /\
-  same_modulo_ids (fst (add_filtered v f nx)) (dbl v (F v f)).
+  api_filtered mk (Some v) f nx = copy_result (fst (add_filtered v mk f nx)) /\
+  api_copy mk (Some v) f nx = copy_result (fst (add_filtered v mk f nx)) /\
+  same_modulo_ids (fst (add_filtered v mk f nx)) (dbl v mk (F v f)).
 Proof. exact api_with_predicate. Qed.
 Print Assumptions C08_api_with_predicate.
 
 (* add_child refuses a second child with one data_id (UniqueConstraintError): the copying form
    is refused iff the tree it would build -- F plus the D24 leaves -- has two siblings with one data_id *)
-Theorem C08_copy_refused_iff : forall v f nx,
-  api_filtered (Some v) f nx = (if sib_dup (dbl v (F v f)) then EUnique else Ok (fst (add_filtered v f nx))) /\
-  api_copy (Some v) f nx = api_filtered (Some v) f nx.
+Theorem C08_copy_refused_iff : forall v mk f nx,
+  api_filtered mk (Some v) f nx = (if sib_dup (dbl v mk (F v f)) then EUnique else Ok (fst (add_filtered v mk f nx))) /\
+  api_copy mk (Some v) f nx = api_filtered mk (Some v) f nx.
 Proof. exact copy_refused_iff. Qed.
 Print Assumptions C08_copy_refused_iff.
 
 (* never on a legal tree in which no node has a child with the node's own data_id; the filter spec
    itself (no D24 leaves) maps legal trees to legal trees; plain copies are never refused *)
-Theorem C08_copy_not_refused : forall v f nx, sib_dup f = false -> pc_dup f = false ->
-  api_filtered (Some v) f nx = Ok (fst (add_filtered v f nx)).
+Theorem C08_copy_not_refused : forall v mk, (forall i, i_did (mk i) = i_did i) -> forall f nx, sib_dup f = false -> pc_dup f = false ->
+  api_filtered mk (Some v) f nx = Ok (fst (add_filtered v mk f nx)).
 Proof. exact copy_not_refused. Qed.
 Print Assumptions C08_copy_not_refused.
 
@@ -205,7 +208,7 @@ Theorem C08_F_legal : forall v f, sib_dup f = false -> sib_dup (F v f) = false.
 Proof. exact F_legal. Qed.
 Print Assumptions C08_F_legal.
 
-Theorem C08_plain_copy_not_refused : forall f nx, sib_dup f = false -> api_copy None f nx = Ok (fst (copy_f f nx)).
+Theorem C08_plain_copy_not_refused : forall mk f nx, sib_dup f = false -> api_copy mk None f nx = Ok (fst (copy_f f nx)).
 Proof. exact plain_copy_not_refused. Qed.
 Print Assumptions C08_plain_copy_not_refused.
 
@@ -213,7 +216,7 @@ Print Assumptions C08_plain_copy_not_refused.
    the copying form raises while the in-place form succeeds -- the statement "the in-place and the
    copying form give the same result" fails outright there *)
 Definition C08_copy_never_fails_statement : Prop :=
-  forall v f nx, NoDup (ids f) -> sib_dup f = false -> exists g, api_filtered (Some v) f nx = Ok g.
+  forall v f nx, NoDup (ids f) -> sib_dup f = false -> exists g, api_filtered (fun i => i) (Some v) f nx = Ok g.
 Definition clone_below : forest :=
   [T 1 (I 7 7 0 true [] (DInt 7) None []) [T 2 (I 7 7 0 true [] (DInt 7) None []) []]].
 Theorem C08_copy_can_fail_refuted : ~ C08_copy_never_fails_statement.
@@ -228,7 +231,7 @@ Print Assumptions C08_copy_can_fail_refuted.
 Example C08_clone_below :
   NoDup (ids clone_below) /\ sib_dup clone_below = false /\ pc_dup clone_below = true /\
   api_filter (Some (fun _ => VTrue)) clone_below = Ok clone_below /\
-  api_filtered (Some (fun _ => VTrue)) clone_below 1 = EUnique /\
+  api_filtered (fun i => i) (Some (fun _ => VTrue)) clone_below 1 = EUnique /\
   sib_dup fixture = false /\ pc_dup fixture = false.
 Proof. split; [apply nodupb_sound; vm_compute; reflexivity|vm_compute; repeat split; reflexivity]. Qed.
 
@@ -255,7 +258,7 @@ Print Assumptions C08_no_stop.
 (* the calls of the predicate made by both scans (mirrored loops with their
    stopped flags) are the reached nodes up to and including the stopping one:
    nothing is asked below a skip / select answer or after a stop *)
-Theorem C08_calls : forall v f, af_calls v f = calls v f /\ ip_calls v f = calls v f.
+Theorem C08_calls : forall v mk f, af_calls v mk f = calls v f /\ ip_calls v f = calls v f.
 Proof. exact calls_spec. Qed.
 Print Assumptions C08_calls.
 
@@ -299,16 +302,16 @@ Print Assumptions C08_ext.
 (* a predicate given by what it does (returns / raises): in place (Node.filter's chain of
    tests) = copying (_add_filtered's chain) modulo the D24 leaves; returning or raising a
    signal makes no difference to either form *)
-Theorem C08_inplace_eq_copy_raw : forall (p : nat -> raw) f, NoDup (ids f) ->
-  same_modulo_ids (filtered (fun n => classify_cp (call_predicate (p n))) f)
-                  (dbl (fun n => classify_cp (call_predicate (p n))) (filter_inplace (fun n => classify_ip (call_predicate (p n))) f)).
+Theorem C08_inplace_eq_copy_raw : forall (p : nat -> raw) mk f, NoDup (ids f) ->
+  same_modulo_ids (filtered (fun n => classify_cp (call_predicate (p n))) mk f)
+                  (dbl (fun n => classify_cp (call_predicate (p n))) mk (filter_inplace (fun n => classify_ip (call_predicate (p n))) f)).
 Proof. exact inplace_vs_copy_raw. Qed.
 Print Assumptions C08_inplace_eq_copy_raw.
 
-Theorem C08_returned_raised_same_result : forall (p q : nat -> raw) f, NoDup (ids f) ->
+Theorem C08_returned_raised_same_result : forall (p q : nat -> raw) mk f, NoDup (ids f) ->
   (forall n, In n (ids f) -> call_predicate (p n) = call_predicate (q n)) ->
   filter_inplace (fun n => classify_ip (call_predicate (p n))) f = filter_inplace (fun n => classify_ip (call_predicate (q n))) f /\
-  same_modulo_ids (filtered (fun n => classify_cp (call_predicate (p n))) f) (filtered (fun n => classify_cp (call_predicate (q n))) f).
+  same_modulo_ids (filtered (fun n => classify_cp (call_predicate (p n))) mk f) (filtered (fun n => classify_cp (call_predicate (q n))) mk f).
 Proof. exact raw_predicates_equal. Qed.
 Print Assumptions C08_returned_raised_same_result.
 
@@ -334,7 +337,7 @@ Example C08_mixed :
   NoDup (ids mixed) /\
   F mixed_v mixed = [nd 1 [nd 2 [nd 3 []; nd 4 []]; nd 5 []]; nd 8 []] /\
   filter_inplace mixed_v mixed = F mixed_v mixed /\
-  map erase (filtered mixed_v mixed) = map erase [nd 1 [nd 2 [nd 3 []; nd 4 []]; nd 5 [nd 5 []]]; nd 8 [nd 8 []]] /\
+  map erase (filtered mixed_v (fun i => i) mixed) = map erase [nd 1 [nd 2 [nd 3 []; nd 4 []]; nd 5 [nd 5 []]]; nd 8 [nd 8 []]] /\
   calls mixed_v mixed = [1; 2; 5; 7; 8; 9] /\ visited mixed_v mixed = [1; 2; 5; 7; 8] /\
   has_stop mixed_v (reach mixed_v mixed) = true /\
   map (upd_at 1 (filter_inplace mixed_v)) mixed = [nd 1 [nd 2 [nd 3 []; nd 4 []]; nd 5 []]; nd 7 [nd 11 []]; nd 8 []; nd 9 []; nd 10 []].
@@ -381,7 +384,7 @@ Definition select_a1 (n : nat) : verdict := if Nat.eqb n 2 then VSelect else VFa
 Example C08_outside_D24 :
   (forall n, select_a1 n <> VTrue /\ select_a1 n <> VSkipKeepSelf) /\
   F select_a1 fixture = [nd 1 [nd 2 [nd 3 []; nd 4 []]]] /\
-  map erase (filtered select_a1 fixture) = map erase (F select_a1 fixture) /\
+  map erase (filtered select_a1 (fun i => i) fixture) = map erase (F select_a1 fixture) /\
   has_stop select_a1 (reach select_a1 fixture) = false.
 Proof.
   split; [|vm_compute; repeat split; reflexivity].
@@ -392,3 +395,16 @@ Qed.
 Theorem C08_generated_facts_present : GEN_FILTER_OK = true.
 Proof. reflexivity. Qed.
 Print Assumptions C08_generated_facts_present.
+
+(* a TypedTree: the copying scan re-creates the nodes it adds itself with the default kind (add_child(n) is called
+   without a kind), the branch below a select answer is copied by _add_from and keeps its kinds; the in-place form
+   does not touch kinds at all *)
+Definition tnd (id : nat) (k : Z) (ch : list rt) : rt := T id (I (Z.of_nat id) (Z.of_nat id) 0 true [] (DInt (Z.of_nat id)) (Some [k]) []) ch.
+Definition typed_forest : forest := [tnd 1 120 [tnd 2 121 [tnd 3 122 []]; tnd 4 122 []]; tnd 5 122 [tnd 6 120 []]].
+Definition typed_v (n : nat) : verdict := match n with 2 => VSelect | 6 => VTrue | _ => VFalse end.
+Example C08_typed_kinds :
+  map rkind (pre_f (filtered typed_v (remake true) typed_forest))
+    = [Some DEFAULT_CHILD_TYPE; Some DEFAULT_CHILD_TYPE; Some [122]; Some DEFAULT_CHILD_TYPE; Some DEFAULT_CHILD_TYPE; Some DEFAULT_CHILD_TYPE]%Z /\
+  map rkind (pre_f (filter_inplace typed_v typed_forest)) = [Some [120]; Some [121]; Some [122]; Some [122]; Some [120]]%Z /\
+  (forall i, i_did (remake true i) = i_did i) /\ (forall i, remake false i = i).
+Proof. split; [vm_compute; reflexivity|]. split; [vm_compute; reflexivity|]. split; intros i; reflexivity. Qed.
